@@ -135,20 +135,28 @@ def gen(ch):
 ASSERT_RE = re.compile(r"([A-Za-z0-9_]+\.(?:cpp|h|hpp)):\d+: .*?Assertion [`'](.*?)' failed", re.S)
 
 
-def signature(rr, hang=False):
+def signature(rr, hang=False, text=""):
+    """root-cause signature of a crash: source file + assertion text (line numbers are left out on purpose); `fatal()` aborts are
+    keyed by their message; silent signals and hangs have nothing to key on and are tied to the exact input text"""
     if hang:
-        return "hang"
+        return "hang|" + common.h(text)
     m = ASSERT_RE.search(rr.err)
     if m:
+        if "fatal error; see std err" in m.group(2):
+            lines = rr.err.split("\n")
+            idx = [i for i, l in enumerate(lines) if "Assertion" in l and "fatal error" in l]
+            prev = [l for l in lines[:idx[0]] if l.strip()] if idx else []
+            msg = prev[-1] if prev else ""
+            return "fatal|" + re.sub(r"[0-9]+", "N", re.sub(r"`.*?`|'.*?'", "Q", msg))[:120]
         return "%s|%s" % (m.group(1), re.sub(r"\s+", " ", m.group(2))[:160])
     m = re.search(r"terminate called after throwing an instance of '([^']+)'\s*(?:what\(\):\s*(.*))?", rr.err)
     if m:
-        return "terminate|%s|%s" % (m.group(1), (m.group(2) or "").strip()[:100])
+        what = (m.group(2) or "").strip().split("[")[0]
+        return "terminate|%s|%s" % (m.group(1), what[:80])
     m = re.search(r"(fatal|Fatal|FATAL|internal error|unreachable|unhandled|Unhandled)[^\n]{0,120}", rr.err)
     if m:
         return "abort|" + re.sub(r"\d+", "N", m.group(0))[:140]
-    last = [l for l in rr.err.strip().split("\n") if l.strip()][-1:] or [""]
-    return "signal%s|%s" % (rr.signal, re.sub(r"\d+", "N", last[0])[:120])
+    return "signal%s|%s" % (rr.signal, common.h(text))
 
 
 def known_sig(sig):
@@ -171,18 +179,19 @@ def classify(case, rr, stage, st):
     if rr.timeout:
         if stage == "evaluation":
             raise Inconclusive("timeout:evaluation")
-        sig = "hang"
-        if known_sig(sig + "|" + (case.get("origin") or "")):
+        sig = signature(rr, hang=True, text=case["text"])
+        kf = known_sig(sig)
+        if kf:
             if st is not None:
-                st.known["hang"] += 1
-            raise Discard("known:hang")
+                st.known[kf["key"]] += 1
+            raise Discard("known:" + kf["key"])
         raise Violation("the front end did not finish within 20 s (stage %s, args %r)" % (stage, case["variant"]), {"case": case, "sig": sig})
     bad = (rr.rc is not None and rr.rc < 0 and not (stage == "evaluation" and rr.signal == 8)) or rr.rc not in (0, 1, None) and rr.rc >= 0 \
         or "Assertion" in rr.err or "terminate called" in rr.err
     if stage == "evaluation" and rr.rc is not None and rr.rc > 1 and "Assertion" not in rr.err:
         bad = False   # e.g. souffle's own signal handler reports an arithmetic error of the program with another status
     if bad:
-        sig = signature(rr)
+        sig = signature(rr, text=case["text"])
         kf = known_sig(sig)
         if kf:
             if st is not None:
